@@ -387,3 +387,26 @@ pub async fn run_tcp_server(ctx: Arc<FrontendContext>) -> anyhow::Result<()> {
     info!("TCP server shutdown complete");
     Ok(())
 }
+
+/// Public access to the connection authentication gate for the simulator
+/// (feature `sim-hooks`): the same `check_auth` the accept loop above calls.
+#[cfg(feature = "sim-hooks")]
+pub mod sim {
+    use super::{AuthManager, TcpAuthState};
+    use std::sync::Arc;
+
+    pub struct SimAuthState(TcpAuthState);
+
+    impl SimAuthState {
+        pub fn new(auth_manager: Option<Arc<AuthManager>>, client_ip: String) -> Self {
+            Self(TcpAuthState::new(auth_manager, client_ip))
+        }
+    }
+
+    pub async fn check_auth<'a>(
+        input: &'a str,
+        state: &mut SimAuthState,
+    ) -> Option<(&'a str, bool, Option<String>, Option<String>)> {
+        super::check_auth(input, &mut state.0).await
+    }
+}
